@@ -240,7 +240,28 @@ def delete_symbol_harness(ctx):
         ctx.prove("delete_symbol/foreign-symbol-refused", z3.BoolVal(True))
 
 
+def delete_symbol_history_harness(ctx):
+    """RewritingContext.delete_symbol over histories of up to 4 requests on TWO symbols (E): the flag recorded for each symbol is the
+    conjunction of the requests made FOR THAT SYMBOL -- a downgrade of one symbol never touches another"""
+    ir, m = create_test_module(gtirb.Module.FileFormat.ELF, gtirb.Module.ISA.X64)
+    _, bi = add_text_section(m, address=0x1000)
+    syms = [add_symbol(m, n, add_code_block(bi, b"\x90")) for n in ("a", "b")]
+    rc = RW.RewritingContext(m, [])
+    n = ctx.choose(4, "requests") + 1
+    want = {}
+    for i in range(n):
+        s = syms[ctx.choose(2, "symbol%d" % i)]
+        f = bool(ctx.choose(2, "force%d" % i))
+        rc.delete_symbol(s, force=f)
+        want[s] = want.get(s, True) and f
+    got = {s: o.force for s, o in rc._symbol_deletions.items()}
+    ctx.prove("delete_symbol/each-symbol's-flag-is-the-conjunction-of-ITS-OWN-requests", z3.BoolVal(got == want),
+              note="recorded %s expected %s" % ({s.name: v for s, v in got.items()}, {s.name: v for s, v in want.items()}))
+    ctx.cover("enumerated")
+
+
 def jobs(tier="quick", seed=0):
+    yield Job("C19/delete_symbol-histories", delete_symbol_history_harness, kind="E", func="gtirb_rewriting.rewriting:RewritingContext.delete_symbol", expect_cover=("enumerated",))
     from . import c19_d
     yield from c19_d.jobs(tier, seed)
     yield Job("C19/delete_symbol", delete_symbol_harness, setup=lambda: shims.installed([RW]), kind="D",
